@@ -16,12 +16,20 @@
    neither the cons marker nor the back-reference marker and parse_atom, which both decoders share
    with the classic one, rejects what follows) — the back-reference decoders are not modelled in
    this tree.
-   NOT proved: (R) and (N) — the serializer is modelled byte for byte (interning, reference counts,
-   atom sort, grouping, instruction emission) and compared with the implementation, and (R)/(N)
-   are decided on the implementation by the check's search; C20_roundtrip_witness only shows them
-   on concrete trees.  Hence level "other".
+   Partial results towards (R)/(N): the core of the round trip — the instruction list the
+   serializer emits for the interned tree of t, run through the decoder's instruction semantics
+   over the atom table the serializer writes (in whatever order the sort puts it), leaves exactly
+   [t] on the stack (C20_instructions_roundtrip_partial; C20_instr_step_is_exec ties that semantics
+   to the decoder's byte-level step), and (N) follows from (R) (C20_len_from_roundtrip).
+   NOT proved: the byte layer of (R) — that the decoder reads back the atom table written in length
+   groups and the varint-encoded instruction list (each piece is a C21 varint round trip; the
+   composition is not done), and that the serializer's fuel suffices. The serializer is modelled byte
+   for byte (interning, reference counts, atom sort, grouping, instruction emission) and compared
+   with the implementation; (R)/(N) are decided on the implementation by the check's search;
+   C20_roundtrip_witness shows them on a concrete tree.  Hence level "other".
    The theorems hold for every value algebra (V, mk_atom, mk_pair) of the decoder. *)
-From Clvm Require Import Model.S2026 Model.Classic Proofs.S2026Proofs Proofs.S2026Probe.
+From Clvm Require Import Model.S2026 Model.Classic Proofs.S2026Proofs Proofs.S2026Probe Proofs.S2026Emit.
+From Coq Require Import Lia.
 Local Open Scope Z_scope.
 
 (* (T) the decoder: on every byte string and for every max_atom_len, strict or lenient, the outcome
@@ -71,6 +79,29 @@ Theorem C20_magic_backref_dispatch_partial : forall r,
   end.
 Proof. exact parse_atom_rejects_magic. Qed.
 
+(* towards (R): instructions emitted for the interned tree of t rebuild t *)
+Theorem C20_instructions_roundtrip_partial : forall t table instrs,
+  lookup_atoms (it_atoms (intern_tree t)) (sorted_no_nil (intern_tree t)) = Ok table ->
+  emit_instructions (intern_tree t) (sorted_no_nil (intern_tree t)) = Ok instrs ->
+  exists dp, exec_all (map Atom table) instrs ([], []) = Some (dp, [t]).
+Proof. exact emit_exec_intern. Qed.
+
+Theorem C20_instr_step_is_exec : forall strict atoms st bs inst r,
+  rv strict bs = Ok (inst, r) -> - 2 ^ 55 <= inst ->
+  instr_step Atom Cons strict atoms st bs =
+    match exec1 atoms st inst with Some st' => Ok (st', r) | None => Err SerializationError end.
+Proof. exact instr_step_exec1. Qed.
+
+(* (N) from (R): a blob that decodes completely has the probe value |blob| *)
+Theorem C20_len_from_roundtrip : forall strict max_atom_len (e : bytes) (t : sexp),
+  wf_bytes e = true -> Z.of_nat (length e) < 2 ^ 64 ->
+  de_2026 Atom Cons strict max_atom_len e = Ok (t, []) ->
+  probe_2026 strict max_atom_len e = Ok (Z.of_nat (length e)).
+Proof.
+  intros strict m e t Hwf Hlen Hd.
+  rewrite (probe_consumed Atom Cons strict m e t [] Hwf Hlen Hd). cbn [length]. f_equal. lia.
+Qed.
+
 (* non-vacuity and (R)/(N) on concrete trees: ((1 . "bb") . ((1 . "bb") . ())) shares a pair, nil
    is not in the atom table; a blob with a lenient-only (overlong) varint *)
 Example C20_roundtrip_witness :
@@ -95,5 +126,8 @@ Print Assumptions C20_alloc_bounded.
 Print Assumptions C20_probe_consumed.
 Print Assumptions C20_magic_classic.
 Print Assumptions C20_magic_backref_dispatch_partial.
+Print Assumptions C20_instructions_roundtrip_partial.
+Print Assumptions C20_instr_step_is_exec.
+Print Assumptions C20_len_from_roundtrip.
 Print Assumptions C20_roundtrip_witness.
 Print Assumptions C20_lenient_witness.
